@@ -32,8 +32,8 @@ NOT_DECIDED = ('that exactly the W3C-well-formed byte strings are accepted over 
 HEXCHARS = '0123456789abcdef'
 
 
-def rule_r1(ck, prog, rule='C09.R1'):
-    f = prog.function('HttpTraceContext::InjectImpl')
+def rule_r1(ck, prog, rule='C09.R1', fname='HttpTraceContext::InjectImpl', want_size=55, want=None, allow_nonliteral=()):
+    f = prog.function(fname)
     bufs = [d for n in f.nodes if n['k'] == 'declstmt' for d in n['decls'] if d['t'].startswith('char[')]
     if not bufs:
         raise AnalysisBroken('InjectImpl: traceparent buffer not found')
@@ -80,13 +80,14 @@ def rule_r1(ck, prog, rule='C09.R1'):
     if part_ok and pos != size:
         bad.append((None, 'written ranges cover [0,%d), the buffer has %d bytes: uninitialised bytes are sent' % (pos, size)))
     if bad:
-        ck.violation(rule, f, 'buffer-partition', bad[0][0], 'traceparent buffer: ' + bad[0][1])
+        ck.violation(rule, f, 'buffer-partition', bad[0][0], 'header buffer: ' + bad[0][1])
     else:
         ck.holds(rule, f, 'buffer-partition', None, '%d writes partition [0,%d) exactly' % (len(ranges), size))
-    want = {0: ord('0'), 1: ord('0'), 2: ord('-'), 35: ord('-'), 52: ord('-')}
-    ok = size == 55 and all(lits.get(k) == v for k, v in want.items()) and set(lits) == set(want)
-    ck.verdict(ok, rule, f, 'literal-bytes', None, 'version 00 and the three dashes at 2/35/52' if ok else
-               'the literal bytes of the traceparent are not "00-" at 0..2 and "-" at 35 and 52 (found %s)' % {k: chr(v) if v else v for k, v in sorted(lits.items())})
+    if want is None:
+        want = {0: ord('0'), 1: ord('0'), 2: ord('-'), 35: ord('-'), 52: ord('-')}
+    ok = size == want_size and all(lits.get(k) == v for k, v in want.items()) and set(lits) - set(allow_nonliteral) == set(want)
+    ck.verdict(ok, rule, f, 'literal-bytes', None, 'separators/literals at %s' % sorted(want) if ok else
+               'the literal bytes of the header are not %s (found %s, buffer %d bytes)' % ({k: chr(v) for k, v in sorted(want.items())}, {k: chr(v) if v else v for k, v in sorted(lits.items())}, size))
     sv = [n for n in f.nodes if n['k'] == 'construct' and strip_targs(n.get('c', '')).endswith('string_view::string_view') and
           len(n.get('args', [])) == 2 and strip_casts(f, n['args'][0]).get('id') == buf['id']]
     ok = bool(sv) and f.nodes[sv[0]['args'][1]].get('v') == size
